@@ -11,6 +11,7 @@
 #
 from sim.core import (
     bounded,
+    dec_token,
     ABSENT,
     HarnessError,
     Violation,
@@ -32,8 +33,10 @@ TOKEN_POOLS = [
     ["x", "", "yy"],  # multi-char and empty-string tokens (no str form)
     ["a", "A", "aa"],
     [0, 1, "1", None],  # non-string tokens; 1 and "1" differ, None is a token like any other
+    ["\x00sub:a", "b", "\x00sub:bb"],  # tokens that are instances of a str subclass
 ]
 CONST_VALUES = [None, 0, False, "", 1, True]
+ODD_VALUES = [{"k": "any"}]  # a value whose == claims equality with anything
 ITER_KINDS = ["items", "prefixes", "values", "iter"]
 FAULT_KINDS = ["key_iter_raises", "unhashable_token", "iter_cancel"]
 
@@ -148,6 +151,8 @@ def generate(seed, run, tier):
             return {"u": unique_counter[0]}
         if mode == "none_heavy":
             return {"c": wrng.choice([None, None, 1])}
+        if wrng.random() < 0.08:
+            return wrng.choice(ODD_VALUES)
         return {"c": wrng.choice(CONST_VALUES)}
 
     scripts = []
@@ -299,7 +304,7 @@ class Run(object):
         self.models = [{} for _ in range(k)]
         self.t = 0
         self.iters = {}
-        self.universe = query_universe(config["alphabet"], config["depth"])
+        self.universe = query_universe([dec_token(t) for t in config["alphabet"]], config["depth"])
         self.sweeps = 0
 
     @property
@@ -448,6 +453,8 @@ class Run(object):
         if len(self.tries) > 1:
             stats.probe("second_instance_in_process")
         model = self.model
+        if "key" in ev:
+            ev = dict(ev, key=[dec_token(t) for t in ev["key"]])
         if op == "set":
             key = tuple(ev["key"])
             value = dec_value(ev["val"])
